@@ -9,7 +9,9 @@ ID = "C08"
 TITLE = "random sampling from a specification is exactly uniform"
 COQ_PROPS = "Props/C08.v"
 COQ_RUN = ("Count.SampleRun", "run_c08")
-GEN_TARGETS = ["compositions"]
+GEN_TARGETS = ["compositions",
+               # CartesianProduct.reliance_profile / _valid_compositions (Count/GenBridgeValidComps.v)
+               "product_reliance_profile", "product_valid_compositions", "product_min_sizes", "product_max_sizes"]
 N = {"quick": 12000, "thorough": 36000}
 RULE = (
     "random.randint / random.choice as seen by strategies/constructor/disjoint.py, cartesian.py and strategies/rule.py are "
@@ -1501,3 +1503,48 @@ def shrink(case):
     if case["kind"] == "stats" and len(cls[3]) > 1:
         for i in range(len(cls[3])):
             yield dict(case, cls=cls[:3] + [cls[3][:i] + cls[3][i + 1:]] + cls[4:])
+
+
+# ---- translator tie of _valid_compositions (separable delta: GEN_TARGETS above + this block)
+_VC_HEAD = "class CartesianProduct:\n    def _valid_compositions(self, n, **parameters):\n        reliance_profile = self.reliance_profile(n, **parameters)\n"
+_VC_TAIL = ("        if all(all(profile.values()) for profile in reliance_profile):\n"
+            "            minmaxes = tuple({k: (min(profile[k]), max(profile[k])) for k in self.parent_parameters} for profile in reliance_profile)\n"
+            "            parameters['n'] = n\n            yield from _helper(minmaxes, **parameters)\n")
+# source texts outside the translator's subset / with a changed shape: each must be REJECTED (fail closed)
+_BAD_SNIPPETS = [
+    ("product_valid_compositions", _VC_HEAD + "        def _helper(minmaxes, **parameters):\n"
+     "            while minmaxes:\n                yield ({**parameters},)\n                minmaxes = minmaxes[1:]\n" + _VC_TAIL,
+     "while loop in the helper"),
+    ("product_valid_compositions", _VC_HEAD + "        def _helper(minmaxes, **parameters):\n"
+     "            if len(minmaxes) == 1:\n                yield ({**parameters, 'n': n},)\n                return\n" + _VC_TAIL,
+     "dictionary display with extra keys / helper reads a local of the outer function"),
+    ("product_valid_compositions", _VC_HEAD + "        def _helper(minmaxes, extra, **parameters):\n"
+     "            yield ({**parameters},)\n" + _VC_TAIL, "helper signature changed"),
+    ("product_valid_compositions", _VC_HEAD + "        def _helper(minmaxes, **parameters):\n"
+     "            for values in product(*[range(parameters[k]) for k in self.parent_parameters], repeat=2):\n"
+     "                yield (dict(zip(self.parent_parameters, values)),)\n" + _VC_TAIL, "keyword argument of itertools.product"),
+    ("product_valid_compositions", "class CartesianProduct:\n    def _valid_compositions(self, n, **parameters):\n"
+     "        yield from self._helper(n, **parameters)\n", "the nested generator is gone"),
+    ("product_reliance_profile", "class CartesianProduct:\n    def reliance_profile(self, n, **parameters):\n"
+     "        parameters['n'] = n\n        return tuple({k: tuple(range(d[k], parameters[k] + 1)) for k in d} for d in self.min_child_sizes)\n",
+     "no longer reads minimum_sizes / max_child_sizes"),
+    ("product_reliance_profile", "class CartesianProduct:\n    def reliance_profile(self, n):\n        return ()\n",
+     "**parameters removed from the signature"),
+    ("product_max_sizes", "class CartesianProduct:\n    @property\n    def max_sizes(self):\n"
+     "        return tuple(d.get('n', 0) for d in self.max_child_sizes)\n", "dict.get with a default other than None"),
+    ("product_min_sizes", "class CartesianProduct:\n    @property\n    def min_sizes(self):\n"
+     "        return tuple(d['size'] for d in self.min_child_sizes)\n", "a key the target does not number"),
+]
+
+
+def extra_checks(ctx):
+    from harness import gen_selftest
+
+    return [gen_selftest.rejects(_BAD_SNIPPETS)] + gen_selftest.checks(
+        ["product_reliance_profile", "product_valid_compositions", "product_min_sizes", "product_max_sizes"], ctx.seed, ID)
+
+
+# translator tie (DESIGN.md 10.9): what the regenerated definitions add to the level
+LEVEL_NOTE += (
+    " Translator tie: CartesianProduct.reliance_profile and _valid_compositions (with its nested generator _helper) and the properties min_sizes / max_sizes are RE-TRANSLATED from cartesian.py on every run (Gen/ProductRelianceProfile.v, Gen/ProductValidCompositions.v, Gen/ProductMinSizes.v, Gen/ProductMaxSizes.v); C08_valid_compositions_is_source proves that the model's valid_comps IS the regenerated function read through the name->position encoding (for every list of distinct parameter names whose first is the name of n, at least one child, vectors of the right length), C08_bounds_are_source that the bounds handed to utils.compositions are column 0 of those vectors (Count/GenBridgeValidComps.v); the regenerated definitions are evaluated against the source functions on random arguments every run (harness/gen_selftest.py)."
+)
